@@ -21,23 +21,41 @@ import random
 
 import numpy as np
 
-from .. import chainsgeo, core, motlutil
+from .. import argguard, chainsgeo, core, motlutil, parsers
 
 REL = 1e-6
+RAN_IDS = set()        # ids of the cases handed to trace_chains in this process (coverage accounting)
 SCALE = 1e5
 OP = "trace_chains"
 
 
 # ---- the call under test --------------------------------------------------------------------------------------
-def build_motls(case):
-    """Entry and exit lists as Motl objects.  variant bit 0: part of every position is carried by the shift columns;
-    bit 1: the lists are handed over as DataFrames (row labels varied by variant // 8); bits 2 and 3 both set: trace_chains is
-    called twice on the same list objects."""
+FORMS = ["motl", "frame", "em_str", "em_path", "frame", "motl"]
+
+
+def case_form(case):
+    return case.get("form") or ("frame" if case.get("variant", 0) & 2 else "motl")
+
+
+def f32(a):
+    return np.asarray(a, dtype=np.float32).astype(np.float64)
+
+
+def build_motls(case, wd=None):
+    """Entry and exit lists in the case's input form: Motl objects, DataFrames (row labels varied by variant // 8, column
+    order by variant // 3), or EM files named by str / pathlib.Path (values are float32 there).  variant bit 0: part of
+    every position is carried by the shift columns; bits 2 and 3 both set: trace_chains is called twice on the same
+    list objects."""
+    import pathlib
     from cryocat import cryomotl
     n = len(case["entry"])
     variant = case.get("variant", 0)
     out = []
-    for pts in (case["entry"], case["exit"]):
+    for which, pts in (("entry", case["entry"]), ("exit", case["exit"])):
+        # form and row labels are chosen independently for the two lists (the lists are paired by position and by
+        # particle id, never by row label): "form_x" / "kx" describe the exit list when they are given
+        form = case_form(case) if which == "entry" else case.get("form_x", case_form(case))
+        klab = variant // 8 if which == "entry" else case.get("kx", variant // 8)
         cols = motlutil.empty_rows(n)
         for k in range(n):
             p = [float(v) for v in pts[k]]
@@ -52,33 +70,65 @@ def build_motls(case):
             cols["subtomo_id"][k] = case["sid"][k]
             cols["class"][k] = 1
         df = motlutil.df_from_cols(cols)
-        # lists handed over as DataFrames may carry any row labels (sorted / sampled / filtered tables)
-        out.append(motlutil.vary_index(df, variant // 8) if variant & 2 else cryomotl.Motl(df))
+        if form == "frame":
+            # lists handed over as DataFrames may carry any row labels and any column order
+            out.append(motlutil.vary_columns(motlutil.vary_index(df, klab), variant // 3))
+        elif form in ("em_str", "em_path"):
+            path = os.path.join(wd, "%s_%d_%s.em" % (which, os.getpid(), case.get("id", 0)))
+            vals = [float(v) for row in df[motlutil.FIELDS].to_numpy(dtype=float) for v in row]
+            parsers.write_em(path, (20, n, 1), "float32", vals)
+            out.append(path if form == "em_str" else pathlib.Path(path))
+        else:
+            # a Motl keeps the row labels of the frame it was built from (sorted / filtered / subset tables)
+            out.append(cryomotl.Motl(motlutil.vary_columns(motlutil.vary_index(df, klab), variant // 3)))
     return out
 
 
-def call_trace(case):
-    """Returns the projected tables [first call (looked at again after the second), second call on the SAME list objects]
-    when variant bits 2 and 3 are set, else [the one call]."""
+def guard_of(me, mx):
+    frames = {}
+    for name, obj in (("motl_entry", me), ("motl_exit", mx)):
+        if hasattr(obj, "df"):
+            frames[name] = obj.df
+        elif not isinstance(obj, (str, os.PathLike)):
+            frames[name] = obj
+    return argguard.Guard(**frames)
+
+
+def call_trace(case, wd=None):
+    """Returns (tables, why): the projected tables [first call (looked at again after the second), second call on the SAME
+    list objects] when variant bits 2 and 3 are set, else [the one call]; why = how an argument was changed, or None."""
     from cryocat import ribana
-    me, mx = build_motls(case)
+    me, mx = build_motls(case, wd)
+    guard = guard_of(me, mx)
+    dmax, dmin = case["max"], case["min"]
+    if case.get("variant", 0) & 16 and float(dmax).is_integer() and float(dmin).is_integer():
+        dmax, dmin = int(dmax), int(dmin)                       # thresholds as Python ints
     with contextlib.redirect_stdout(io.StringIO()):
-        first = ribana.trace_chains(me, mx, case["max"], case["min"])
-        if case.get("variant", 0) & 12 != 12:
-            return [project(first.df)]
+        first = ribana.trace_chains(me, mx, dmax, dmin)
+        why = guard.changed()
+        if case.get("variant", 0) & 12 != 12 or why:
+            return [project(first.df)], why
         # the caller's own list objects are re-used: an implementation that modifies its arguments or keeps state
         # between calls shows up in the second table, or in the first one when it is inspected afterwards
-        second = ribana.trace_chains(me, mx, case["max"], case["min"])
-        return [project(first.df), project(second.df)]
+        second = ribana.trace_chains(me, mx, dmax, dmin)
+        return [project(first.df), project(second.df)], guard.changed()
+
+
+def em_side(case, which):
+    f = case_form(case) if which == "entry" else case.get("form_x", case_form(case))
+    return f.startswith("em")
 
 
 def coords(case):
-    """The positions the library works with: with variant bit 0 the float sum base + shift (not the decimal input)."""
+    """The positions the library works with: with variant bit 0 the float sum base + shift (not the decimal input); for
+    EM file inputs every stored number is single precision."""
     E = np.array(case["entry"], dtype=float)
     X = np.array(case["exit"], dtype=float)
-    if case.get("variant", 0) & 1:
-        E = np.floor(E) + (E - np.floor(E))
-        X = np.floor(X) + (X - np.floor(X))
+    def side(A, em):
+        if case.get("variant", 0) & 1:
+            return f32(np.floor(A)) + f32(A - np.floor(A)) if em else np.floor(A) + (A - np.floor(A))
+        return f32(A) if em else A
+    E, X = side(E, em_side(case, "entry")), side(X, em_side(case, "exit"))
     return E, X
 
 
@@ -91,6 +141,17 @@ def relation(case):
     D = np.sqrt(((X[:, None, :] - E[None, :, :]) ** 2).sum(axis=2))
     dmax, dmin = case["max"], case["min"]
     links = []
+    if case.get("exact"):
+        # integer lattice sites, integer thresholds: distances may sit exactly on a threshold; decided in integers
+        # (open at min_distance, closed at max_distance) - ChainsTrace.tla recomputes this relation itself
+        Ei, Xi = np.array(case["entry"], dtype=np.int64), np.array(case["exit"], dtype=np.int64)
+        for a in range(n):
+            for b in range(n):
+                if a != b and tomo[a] == tomo[b]:
+                    d2 = int(((Xi[a] - Ei[b]) ** 2).sum())
+                    if int(dmin) ** 2 < d2 <= int(dmax) ** 2:
+                        links.append([int(case["sid"][a]), int(case["sid"][b]), int(round(math.sqrt(d2) * SCALE))])
+        return links
     for a in range(n):
         for b in range(n):
             if a == b or tomo[a] != tomo[b]:
@@ -250,19 +311,28 @@ def run_cases(ctx, cases, corrupt=None):
         if links is None:
             ctx.discard("near tie (a distance within 1e-6 of max_distance / min_distance)")
             continue
-        res, err = core.call_guarded(call_trace, case)
+        res, err = core.call_guarded(call_trace, case, ctx.sub("em"))
+        RAN_IDS.add(case.get("id", 0))
         ctx.ran(case, nontrivial=len(links) > 0)
         if err is not None:
             pending.append(("call_raises", err, case, "-", None))
+            continue
+        res, why = res
+        if why:
+            # the tracing is about the lists the caller holds; a call that rewrites them answers about other lists
+            ctx.fail("C19_ArgumentsUnchanged", "trace_chains changed its argument (%s)" % why, case,
+                     {"op": OP, "kind": "-", "cause": "argument modified"})
             continue
         for j, rows in enumerate(res):
             if corrupt == "field" and not traces and len(rows) > 1:
                 rows[0][0] = rows[1][0]                       # binding demonstration: a particle reported twice
             if corrupt == "links" and not traces and links:
                 links = links[1:]                              # binding demonstration: a link missing from the relation
-            traces.append({"id": case.get("id", 0),
-                           "parts": [[int(s), int(t)] for s, t in zip(case["sid"], case["tomo"])],
-                           "link": links, "out": rows})
+            tr = {"id": case.get("id", 0), "parts": [[int(s), int(t)] for s, t in zip(case["sid"], case["tomo"])],
+                  "link": links, "out": rows}
+            if case.get("exact"):
+                tr["lat"] = {"E": case["entry"], "X": case["exit"], "max2": int(case["max"]) ** 2, "min2": int(case["min"]) ** 2}
+            traces.append(tr)
             kept.append(case)
             tables.append(rows)
     if not traces:
@@ -306,8 +376,10 @@ def rand_unit(rng):
             return [x / nv for x in v]
 
 
-def gen_case(rng, idx):
+def gen_case(rng, idx, nforce=0):
     n = rng.randint(2, 60) if rng.random() < 0.7 else rng.randint(2, 14)
+    if nforce:
+        n = nforce
     nt = rng.randint(1, 3)
     mode = rng.choice(["uniform", "clusters", "walk", "walk"])
     dmax = round(rng.uniform(1.5, 7.0), 2)
@@ -355,12 +427,59 @@ def gen_case(rng, idx):
     tomo = [rng.randint(1, nt) for _ in range(n)]
     if rng.random() < 0.5:
         tomo = sorted(tomo)
-    base = rng.choice([1, 1, 100, 5000])
+    base = rng.choice([1, 1, 100, 5000, 16777217])
     sid = list(range(base, base + n))
     if rng.random() < 0.3:
         rng.shuffle(sid)
+    form = FORMS[idx % len(FORMS)]
+    form_x = rng.choice(["motl", "frame", "em_str", "em_path", form, form])
+    if base == 16777217:                                       # ids beyond 2^24 are not float32 numbers
+        form = "frame" if form.startswith("em") else form
+        form_x = "motl" if form_x.startswith("em") else form_x
     return {"kind": "points", "id": idx, "entry": entry, "exit": exit_, "tomo": tomo, "sid": sid,
-            "max": dmax, "min": dmin, "variant": rng.randrange(64), "mode": mode}
+            "max": dmax, "min": dmin, "variant": rng.randrange(64), "mode": mode, "form": form, "form_x": form_x,
+            "kx": rng.randrange(8)}
+
+
+def gen_exact_case(rng, idx):
+    """See gen_exact_case0.  A case in which an exit site coincides with the entry site of another particle of the same
+    tomogram while min_distance = 0 is re-drawn: distance 0 is an exact tie at the open end of (0, max] (the pinned tree
+    links such a pair with recorded distance 0 - reported to the lead, not claimed here)."""
+    while True:
+        c = gen_exact_case0(rng, idx)
+        E, X, t = np.array(c["entry"]), np.array(c["exit"]), np.array(c["tomo"])
+        d2 = ((X[:, None, :] - E[None, :, :]) ** 2).sum(axis=2)
+        same = (t[:, None] == t[None, :]) & ~np.eye(len(t), dtype=bool)
+        if c["min"] > 0 or not np.any((d2 == 0) & same):
+            return c
+
+
+def gen_exact_case0(rng, idx):
+    """Integer lattice sites and integer thresholds: many exit -> entry distances are exactly max_distance (3-4-5,
+    6-8-10, axis steps) or exactly min_distance - the interval is (min, max]."""
+    n = rng.randint(2, 14)
+    dmax = rng.choice([5, 5, 10, 13, 3])
+    dmin = rng.choice([0, 0, 1, 2, 3, 4]) if dmax > 4 else rng.choice([0, 1, 2])
+    steps = [v for v in ([dmax, 0, 0], [0, dmax, 0], [3, 4, 0], [0, 3, 4], [4, 0, 3], [6, 8, 0], [5, 12, 0], [0, dmin, 0], [dmin, 0, 0],
+                         [1, 2, 2], [2, 3, 6], [1, 1, 1], [2, 0, 1]) if any(v)]
+    entry, exit_ = [], []
+    pos = [rng.randint(0, 20) for _ in range(3)]
+    for k in range(n):
+        if rng.random() < 0.25:
+            pos = [rng.randint(0, 30) for _ in range(3)]
+        entry.append(list(pos))
+        st = rng.choice(steps)
+        ex = [pos[i] + rng.choice([-1, 1]) * st[i] for i in range(3)]
+        exit_.append(ex)
+        st = rng.choice(steps)
+        pos = [ex[i] + rng.choice([-1, 1]) * st[i] for i in range(3)]
+    perm = list(range(n))
+    rng.shuffle(perm)
+    nt = rng.randint(1, 2)
+    return {"kind": "points", "id": idx, "entry": [entry[p] for p in perm], "exit": [exit_[p] for p in perm],
+            "tomo": sorted(rng.randint(1, nt) for _ in range(n)), "sid": list(range(1, n + 1)), "max": dmax, "min": dmin,
+            "variant": rng.randrange(64) & ~1, "mode": "lattice-exact", "form": FORMS[idx % len(FORMS)],
+            "form_x": FORMS[(idx * 5 + 1) % len(FORMS)], "kx": rng.randrange(8), "exact": True}
 
 
 # ---- L1 / L2: the algorithm model -----------------------------------------------------------------------------------
@@ -381,7 +500,9 @@ def instance_case(ctx, rec, rng, idx):
     entry, exit_ = real
     n = rec["n"]
     return {"kind": "points", "id": idx, "entry": entry, "exit": exit_, "tomo": [1] * n, "sid": list(range(1, n + 1)),
-            "max": chainsgeo.DMAX, "min": chainsgeo.DMIN, "variant": 0, "mode": "model-instance",
+            "max": chainsgeo.DMAX, "min": chainsgeo.DMIN, "variant": (idx * 7) % 64, "form": FORMS[idx % len(FORMS)],
+            "form_x": FORMS[(idx * 5 + 1) % len(FORMS)], "kx": (idx * 3 + 2) % 8,
+            "mode": "model-instance",
             "instance": {"n": n, "links": rec["links"]}}
 
 
@@ -506,8 +627,8 @@ def run(ctx):
             real = canon([(r[0], r[2], r[3]) for r in rows])
             agree += int(real == canon([tuple(x[:3]) for x in by_id[c["id"]]["table"]]))
         realised = set()
-        for c in kept:
-            if by_id[c["id"]] is not None:
+        for c in cases:                                       # replayed = handed to the code, whatever the verdict
+            if c["id"] in RAN_IDS and by_id[c["id"]] is not None:
                 realised |= families(by_id[c["id"]]["how"])
         lost = [f for f in per_family if f not in realised]
         ctx.extra["dispatch_families_replayed"] = sorted("%s/%s" % f for f in realised)
@@ -529,6 +650,9 @@ def run(ctx):
         done = 0
         while done < total:
             k = min(batch, total - done)
-            cases = [gen_case(ctx.rng, done + i + 1) for i in range(k)]
+            # every particle count 1..12 is present in every run (sizes are not only sampled); a fifth of the cases are
+            # lattice cases with distances exactly on the thresholds
+            cases = [gen_case(ctx.rng, done + i + 1, nforce=(done + i + 1) if done + i < 12 else 0) if (done + i) % 5 != 4
+                     else gen_exact_case(ctx.rng, done + i + 1) for i in range(k)]
             run_cases(ctx, cases, corrupt=(os.environ.get("VERIF_C19_CORRUPT") or None) if done == 0 else None)
             done += k
